@@ -127,7 +127,14 @@ impl Scheduler for TraceScheduler {
     }
 
     fn next_task(&mut self, runnable: &[&Task], current: Option<TaskId>, _is_yielding: bool) -> Option<TaskId> {
-        let ids: Vec<u32> = runnable.iter().map(|t| usize::from(t.id()) as u32).collect();
+        // shuttle also offers tasks that are blocked in `park` (they "may wake spuriously").  Every
+        // waiter in the simulator re-checks its condition in a loop and every state change unparks
+        // the waiters, so spurious wake-ups add no behaviour; scheduling them would only let a
+        // parked task spin (and, under a priority strategy, starve everybody else).
+        let mut ids: Vec<u32> = runnable.iter().filter(|t| t.runnable()).map(|t| usize::from(t.id()) as u32).collect();
+        if ids.is_empty() {
+            ids = runnable.iter().map(|t| usize::from(t.id()) as u32).collect();
+        }
         let cur = current.map(|t| usize::from(t) as u32);
         let step = self.step;
         self.step += 1;
